@@ -41,7 +41,7 @@ func EncodingOf(kind string) string {
 	switch kind {
 	case "t1std":
 		return "StandardEncoding"
-	case "t1win", "ttwin":
+	case "t1win", "ttwin", "ttembed":
 		return "WinAnsiEncoding"
 	case "t1mac", "ttmac":
 		return "MacRomanEncoding"
@@ -63,12 +63,12 @@ func GenFonts(t *rapid.T) []FontSpec {
 	n := rapid.IntRange(1, 3).Draw(t, "nFonts")
 	var fonts []FontSpec
 	for i := 0; i < n; i++ {
-		kind := rapid.SampledFrom([]string{"t1std", "t1win", "t1mac", "ttwin", "ttmac", "tu1", "type0"}).Draw(t, "fontKind")
+		kind := rapid.SampledFrom([]string{"t1std", "t1win", "t1mac", "ttwin", "ttmac", "ttembed", "tu1", "type0"}).Draw(t, "fontKind")
 		f := FontSpec{Res: fmt.Sprintf("F%d", i+1), Kind: kind}
 		switch kind {
 		case "t1std", "t1win", "t1mac":
 			f.Base = rapid.SampledFrom(stdBases).Draw(t, "base")
-		case "ttwin", "ttmac":
+		case "ttwin", "ttmac", "ttembed":
 			f.Base = rapid.SampledFrom(ttBases).Draw(t, "base")
 		case "tu1":
 			if i%2 == 0 {
